@@ -560,3 +560,66 @@ Proof.
   pose proof (srv_return_ge _ pt max rss 0 t i rs e Ht Hn) as H. cbn [Nat.add] in H.
   rewrite (hits_all (length rss) i Hlt) in H. specialize (H ltac:(lia) He). lia.
 Qed.
+
+(* ------------------------------------------------------------------ hand-over and the write lock *)
+(* invariant of every schedule when the lock is taken before the socket is given away *)
+Definition h_inv (w n : bytes) (st : hst) : Prop :=
+  exists wd nd, h_wire st = wd ++ nd /\ wd ++ h_old st = w /\ nd ++ h_new st = n /\
+                (h_fd st = true -> h_old st = []) /\ (h_fd st = false -> nd = []) /\
+                (h_tpc st >= 1 -> h_old st = []).
+
+Lemma h_inv_init w k n : h_inv w n (h_init w k n).
+Proof.
+  exists (firstn k w), []. unfold h_init; cbn. rewrite app_nil_r, firstn_skipn.
+  repeat split; try reflexivity; try discriminate; intros; lia.
+Qed.
+
+Ltac h_close := repeat split; intros; try assumption; try reflexivity; try discriminate; try lia; auto.
+
+Lemma h_inv_step w n st a : h_inv w n st -> h_inv w n (h_step true st a).
+Proof.
+  intros (wd & nd & Hw & Ho & Hn & Hfd & Hnf & Hpc). destruct st as [old pc fd nw wr]; cbn in *.
+  destruct a; cbn [h_step h_old h_tpc h_fd h_new h_wire].
+  - (* the old writer emits a byte: only possible while the socket is still ours, so nothing of n is out *)
+    destruct old as [|x r]; [exists wd, nd; h_close|].
+    assert (Hf : fd = false) by (destruct fd; [specialize (Hfd eq_refl); discriminate|reflexivity]). subst fd.
+    specialize (Hnf eq_refl). subst nd. rewrite app_nil_r in Hw. subst wr.
+    exists (wd ++ [x]), []. cbn. rewrite app_nil_r, <- app_assoc. cbn.
+    split; [reflexivity|]. split; [exact Ho|]. split; [exact Hn|]. split; [discriminate|]. split; [reflexivity|].
+    intros Hp. specialize (Hpc Hp). discriminate.
+  - unfold t_step; cbn [h_old h_tpc h_fd h_new h_wire].
+    destruct pc as [|[|pc]]; cbn [h_old h_tpc h_fd h_new h_wire].
+    + destruct old as [|x r]; cbn [is_nil h_old h_tpc h_fd h_new h_wire]; exists wd, nd; h_close.
+    + assert (Hold : old = []) by (apply Hpc; lia). subst old.
+      exists wd, nd. h_close.
+    + exists wd, nd. h_close.
+  - destruct fd; [|exists wd, nd; h_close].
+    destruct nw as [|x r]; [exists wd, nd; h_close|].
+    exists wd, (nd ++ [x]). cbn [h_old h_tpc h_fd h_new h_wire].
+    split; [rewrite Hw, <- app_assoc; reflexivity|]. split; [exact Ho|].
+    split; [rewrite <- app_assoc; exact Hn|]. split; [exact Hfd|]. split; [discriminate|exact Hpc].
+Qed.
+
+Lemma h_inv_run w n sched : forall st, h_inv w n st -> h_inv w n (fold_left (h_step true) sched st).
+Proof. induction sched as [|a sched IH]; intros st H; cbn; [exact H|]. apply IH. apply h_inv_step. exact H. Qed.
+
+(* MAIN: for EVERY schedule of the old writer, transfer() and the new side - wherever the old write had got when transfer()
+   was called -: what is on the wire is a prefix of w followed by a prefix of n, and no byte of the new side is written
+   before the last byte of the old write that was in progress *)
+Theorem new_side_waits_for_old_write w k n sched :
+  let st := h_run true w k n sched in
+  exists wd nd, h_wire st = wd ++ nd /\ wd ++ h_old st = w /\ nd ++ h_new st = n /\ (nd <> [] -> wd = w).
+Proof.
+  cbn zeta. destruct (h_inv_run w n sched _ (h_inv_init w k n)) as (wd & nd & Hw & Ho & Hn & Hfd & Hnf & _).
+  exists wd, nd. repeat split; try assumption.
+  intros Hne. destruct (h_fd (h_run true w k n sched)) eqn:E.
+  - unfold h_run in *. rewrite (Hfd E) in Ho. rewrite app_nil_r in Ho. exact Ho.
+  - unfold h_run in *. specialize (Hnf E). contradiction.
+Qed.
+
+Corollary wire_complete w k n sched :
+  h_old (h_run true w k n sched) = [] -> h_new (h_run true w k n sched) = [] -> h_wire (h_run true w k n sched) = w ++ n.
+Proof.
+  intros H1 H2. destruct (new_side_waits_for_old_write w k n sched) as (wd & nd & Hw & Ho & Hn & _).
+  rewrite H1, app_nil_r in Ho. rewrite H2, app_nil_r in Hn. subst. exact Hw.
+Qed.
